@@ -123,6 +123,11 @@ class Interp:
                         got = Val(locs=[(oid, ("." + name,))], deps=[(oid, ("." + name,))])
                 if got is None:
                     got = Val(locs=[(oid, ("." + name,))], deps=[(oid, ("." + name,))])
+                    if pc is not None and not quiet and o.region != "caller" and not pc.is_namedtuple and \
+                            pc.resolve(name) is None and name not in self.known_attrs(pc):
+                        # no method, class attribute or assignment anywhere gives an instance of this class the
+                        # attribute: the read raises AttributeError
+                        self.emit("missing-attr", node, cls=o.cls, name=name)
                 parts.append(got)
         for (oid, steps) in base.locs:
             o = self.obj(oid)
@@ -145,6 +150,39 @@ class Interp:
             self.stats["loads"] += 1
             self.emit("load", node, targets=targets, name=name, val=v)
         return v
+
+    def known_attrs(self, pc: ClassInfo):
+        """Attribute names an instance of pc can have: stored on self by a method of its MRO, declared at class level,
+        or stored on some object from outside (x.name = ...) anywhere in the package."""
+        cache = self.__dict__.setdefault("_known_attrs", {})
+        if pc.name in cache:
+            return cache[pc.name]
+        ext = self.__dict__.get("_ext_attr_stores")
+        if ext is None:
+            ext = set()
+            for m in self.prog.modules.values():
+                for n in ast.walk(m.tree):
+                    if isinstance(n, ast.Attribute) and isinstance(n.ctx, ast.Store) and not (
+                            isinstance(n.value, ast.Name) and n.value.id == "self"):
+                        ext.add(n.attr)
+                    if isinstance(n, ast.Call) and isinstance(n.func, ast.Name) and n.func.id == "setattr" and \
+                            len(n.args) >= 2 and isinstance(n.args[1], ast.Constant):
+                        ext.add(n.args[1].value)
+            self.__dict__["_ext_attr_stores"] = ext
+        names = set(ext)
+        for k in pc.mro:
+            for st in k.node.body:
+                if isinstance(st, (ast.Assign, ast.AnnAssign)):
+                    for t in (st.targets if isinstance(st, ast.Assign) else [st.target]):
+                        if isinstance(t, ast.Name):
+                            names.add(t.id)
+            for f in k.methods.values():
+                for n in ast.walk(f.node):
+                    if isinstance(n, ast.Attribute) and isinstance(n.ctx, ast.Store) and \
+                            isinstance(n.value, ast.Name) and n.value.id == "self":
+                        names.add(n.attr)
+        cache[pc.name] = names
+        return names
 
     def class_attr_val(self, owner: ClassInfo, name: str, expr) -> Val:
         k = (owner.name, name)
